@@ -777,7 +777,9 @@ PY_ISO = [   # text -> ('date', y, m, d) | ('time', h, mi, s, us, offset | None)
     ("20161006T123456.1234567Z", ("dt", 2016, 10, 6, 12, 34, 56, 123456, 0)), ("T102030.123456789", ("time", 10, 20, 30, 123456, None)), ("20161006T123456,987654321+0130", ("dt", 2016, 10, 6, 12, 34, 56, 987654, 5400)),
     ("T10:20:30", ("time", 10, 20, 30, 0, None)), ("T10:20:30.5-03:30", ("time", 10, 20, 30, 500000, -12600)), ("T102030", ("time", 10, 20, 30, 0, None)), ("T1020", ("time", 10, 20, 0, 0, None)), ("T10", ("time", 10, 0, 0, 0, None)),
     ("20161006T1234", ("dt", 2016, 10, 6, 12, 34, 0, 0, None)), ("20161006T12", ("dt", 2016, 10, 6, 12, 0, 0, 0, None)), ("2016-10-06T12:34:56.1+14:00", ("dt", 2016, 10, 6, 12, 34, 56, 100000, 50400)),
-    ("2016-10-06T12:34:56-23:59", ("dt", 2016, 10, 6, 12, 34, 56, 0, -86340)), ("T10:2030", None), ("T1020:30", None),
+    ("2016-10-06T12:34:56-23:59", ("dt", 2016, 10, 6, 12, 34, 56, 0, -86340)), ("2016-10-06T12:34:56+23:59", ("dt", 2016, 10, 6, 12, 34, 56, 0, 86340)),
+    ("2016-10-06T12:34:56+14:01", ("dt", 2016, 10, 6, 12, 34, 56, 0, 50460)), ("2016-10-06T12:34:56+1830", ("dt", 2016, 10, 6, 12, 34, 56, 0, 66600)), ("12:34:56+20", ("time", 12, 34, 56, 0, 72000)),
+    ("2012W05-", None), ("2012W05-T09", None), ("2012-W05-", None), ("2012-W05-T09:00", None), ("2012W05-1", None), ("2012-W051", None), ("2012-W05T09", ("dt", 2012, 1, 30, 9, 0, 0, 0, None)), ("T10:2030", None), ("T1020:30", None),
     ("2016-280", ("date", 2016, 10, 6)), ("2016280", ("date", 2016, 10, 6)), ("2020-366", ("date", 2020, 12, 31)), ("2019-365", ("date", 2019, 12, 31)),
     ("2019-001", ("date", 2019, 1, 1)), ("2016-060", ("date", 2016, 2, 29)), ("2015-060", ("date", 2015, 3, 1)), ("2016-031", ("date", 2016, 1, 31)), ("2016-032", ("date", 2016, 2, 1)),
     ("2015-059", ("date", 2015, 2, 28)), ("2016-335", ("date", 2016, 11, 30)), ("2016-336", ("date", 2016, 12, 1)),
